@@ -334,6 +334,193 @@ def c13(tier):
     return v.finish()
 
 
+# ------------------------------------------------------------------------------------------ C14 / C15
+
+RING_CFG = """SPECIFICATION %(spec)s
+CONSTANTS
+ Size = 4
+ Block = 2
+ Total = %(total)d
+ MaxChunk = 2
+ NClose = %(nclose)d
+ PMode = "%(pmode)s"
+ CMode = "%(cmode)s"
+ POps = %(pops)s
+ COps = %(cops)s
+ DevStale = %(stale)s
+ DevLeak = %(leak)s
+ DevCloseMu = %(closemu)s
+ Eager = %(eager)s
+ Hist = %(hist)s
+ MaxHist = 400
+"""
+RING_BASE = dict(spec="Spec", total=4, nclose=1, pmode="calls", cmode="calls", pops='{"W"}', cops='{"RW"}',
+                 stale="FALSE", leak="FALSE", closemu="FALSE", eager="FALSE", hist="FALSE")
+RING_GEN = [  # (name, overrides, quick?)
+    ("w-rw", {}, True),
+    ("ww-rp", dict(pops='{"WW"}', cops='{"RP"}'), True),
+    ("w-r", dict(cops='{"R"}'), True),
+    ("ww-pump", dict(pops='{"WW"}', cmode="pump"), True),
+    ("w-rw-noclose", dict(nclose=0, total=6), True),
+    ("pump-rw", dict(pmode="pump"), False),
+    ("pump-pump", dict(pmode="pump", cmode="pump"), False),
+    ("w-rw-close2", dict(nclose=2), False),
+    ("ww-rp-5", dict(pops='{"WW"}', cops='{"RP"}', total=5), False),
+    ("w-r-5", dict(cops='{"R"}', total=5, nclose=2), False),
+]
+RING_INV = "INVARIANTS Fifo NoOverwrite Bounded ReservedFree LocksFreeAtRest MutexOwnersSane\n"
+
+
+def ring_schedules(name, over):
+    """Transition-cover schedules of the Ring specification in the replayable (Eager) regime.
+    Cached under gen/ as ndjson of the maximal witness schedules."""
+    consts = dict(RING_BASE, eager="TRUE", hist="TRUE")
+    consts.update(over)
+    cfg = RING_CFG % consts + RING_INV.replace("\n", " Emit\n") + "VIEW CoverView\n"
+    os.makedirs(core.GEN, exist_ok=True)
+    key = core.spec_hash("Ring", cfg, "sched")
+    path = os.path.join(core.GEN, "ring-%s-%s.ndjson" % (name, key))
+    meta = path + ".meta"
+    if os.path.exists(path) and os.path.exists(meta):
+        return path, json.load(open(meta))
+    r = core.run_tlc("Ring", cfg, workers=1, timeout=1500)
+    if r.violation:
+        raise Infra("TLC reports '%s' while generating ring schedules %s" % (r.violation, name))
+    behs = core.behaviours(r.lines)
+    lv = core.leaves(behs, key=lambda x: x["h"])
+    for fn in os.listdir(core.GEN):
+        if fn.startswith("ring-%s-" % name):
+            os.unlink(os.path.join(core.GEN, fn))
+    with open(path, "w") as f:
+        for x in lv:
+            f.write(json.dumps(x) + "\n")
+    m = {"generated": r.generated, "distinct": r.distinct, "depth": r.depth, "wall_s": round(r.wall, 1),
+         "witness_paths": len(behs), "maximal_schedules": len(lv), "steps": sum(len(x["h"]) for x in lv), "cmd": r.cmd}
+    json.dump(m, open(meta, "w"))
+    return path, m
+
+
+def ring_design(v, thorough, deadlock_family):
+    """TLC checks the Ring design itself (unrestricted interleavings, no history)."""
+    runs = [
+        ("ring-calls-close", dict(total=5 if not thorough else 6, nclose=1 if not thorough else 2, pops='{"W","WW"}', cops='{"R","RP","RW"}'), "Spec", ""),
+        ("ring-calls-noclose", dict(total=6 if not thorough else 7, nclose=0, pops='{"W","WW"}', cops='{"R","RP","RW"}'), "Spec", ""),
+        ("ring-pump-calls", dict(total=5 if not thorough else 6, pmode="pump", cops='{"R","RP","RW"}'), "Spec", ""),
+        ("ring-calls-pump", dict(total=5 if not thorough else 6, cmode="pump", pops='{"W","WW"}'), "Spec", ""),
+    ]
+    if deadlock_family:
+        runs += [("ring-liveness", dict(total=4, pops='{"W","WW"}', cops='{"R","RP","RW"}'), "FairSpec", "PROPERTIES Terminates CloseReturns\n"),
+                 ("ring-liveness-pump", dict(total=4, pmode="pump", cmode="pump"), "FairSpec", "PROPERTIES Terminates CloseReturns\n")]
+    for name, over, spec, props in runs:
+        consts = dict(RING_BASE, spec=spec)
+        consts.update(over)
+        cfg = RING_CFG % consts + RING_INV + props + "CHECK_DEADLOCK TRUE\n"
+        r = core.cached_tlc(name + ("-t" if thorough else "-q"), "Ring", cfg, workers=8, timeout=1500, deadlock=True)
+        v.tlc(name, r)
+    if deadlock_family:
+        # vacuity guard: with each named deviation switched on, TLC must find the defect
+        for dev in ("stale", "leak", "closemu"):
+            consts = dict(RING_BASE, total=6, nclose=0 if dev == "stale" else 1, pops='{"W","WW"}', cops='{"R","RP","RW"}')
+            consts[dev] = "TRUE"
+            cfg = RING_CFG % consts + RING_INV + "CHECK_DEADLOCK TRUE\n"
+            r = core.cached_tlc("ring-dev-" + dev, "Ring", cfg, workers=8, timeout=600, deadlock=True)
+            v.cov["tlc_runs"].append(dict(name="deviation " + dev + " (must be refuted)", found=r.violation, **r.stats()))
+            if not r.violation:
+                raise Infra("the Ring specification with deviation %s is not refuted by TLC: the configuration is vacuous" % dev)
+
+
+def ring_check(pid, tier):
+    v = Verdict(pid, tier)
+    thorough = tier == "thorough"
+    ring_design(v, thorough, pid == "C15")
+    # gated replay of the transition-cover schedules
+    import random
+    total_steps = 0
+    foreign = 0
+    for name, over, in_quick in RING_GEN:
+        if not thorough and not in_quick:
+            continue
+        path, meta = ring_schedules(name, over)
+        v.cov["tlc_runs"].append(dict(name="schedules " + name, **meta))
+        v.cov["states"] += meta["distinct"]
+        v.cov["transitions"] += meta["generated"]
+        scheds = [json.loads(l) for l in open(path)]
+        res = core.merge(core.run_sharded(["ringreplay", "-stepms", "4000"], scheds, timeout=1200))
+        mine = [m for m in res.get("mismatches", []) if m.get("tag") == pid]
+        foreign += len([m for m in res.get("mismatches", []) if m.get("tag") != pid])
+        v.mismatches(mine)
+        c = res.get("counts", {})
+        v.cov["parts"]["schedules:" + name] = {
+            "replayed": res.get("evaluations", 0), "of": meta["maximal_schedules"], "steps": res.get("steps", 0),
+            "parks": c.get("parked", 0), "wakes": c.get("step:w", 0), "eof_returns": c.get("eof-returns", 0),
+            "lock_probes": c.get("lockprobes", 0), "mismatching": res.get("nmismatch", 0)}
+        v.cov["evaluations"] += res.get("evaluations", 0)
+        v.cov["traces_validated_against_impl"] += res.get("evaluations", 0)
+        v.cov["distinct_nontrivial"] += res.get("evaluations", 0)
+        total_steps += res.get("steps", 0)
+        v.add_samples(res.get("samples") or [], 1)
+        for n in res.get("notes", [])[:5]:
+            v.notes.append(n)
+    v.cov["diverged_foreign"] = foreign
+    return v, thorough
+
+
+@check("C14")
+def c14(tier):
+    v, thorough = ring_check("C14", tier)
+    # direction B: free-running pairs, byte granularity
+    ntr, nbytes = (24, 400000) if not thorough else (120, 1500000)
+    tmp = tempfile.mkdtemp(prefix="verif-c14-")
+    try:
+        tf = os.path.join(tmp, "trace.ndjson")
+        p = core.run_harness(["ringstream", "-seed", str(core.seed()), "-traces", str(ntr), "-bytes", str(nbytes), "-out", tf], timeout=900)
+        if p.returncode != 0:
+            raise Infra("ringstream failed: %s" % p.stderr[-2000:])
+        res = json.loads(p.stdout.strip().splitlines()[-1])
+        text = open(tf).read()
+    finally:
+        import shutil
+        shutil.rmtree(tmp, ignore_errors=True)
+    if res.get("counts", {}).get("stuck_traces"):
+        v.notes.append("free-running: %s" % res.get("notes"))
+    cfg = "SPECIFICATION Spec\nINVARIANTS PrefixInv LagInv Report\nPOSTCONDITION Accepted\n"
+    ok, matched, reports, why = validate_trace(v, "RingStreamTrace", cfg, text, "RingStreamTrace", "ring stream")
+    lines = text.splitlines()
+    v.cov["parts"]["free-running"] = {"traces": ntr, "events": len(lines), "matched_prefix": matched,
+                                      "spec_report": reports[-1]["report"] if reports else None,
+                                      "stuck": res.get("counts", {}).get("stuck_traces", 0)}
+    v.cov["traces_validated_against_impl"] += ntr
+    if not ok:
+        lo = max(0, matched - 5)
+        v.mismatch({"what": "recorded ring stream rejected by RingStreamTrace at event %d (%s): %s" % (
+            matched, why, lines[matched - 1] if 0 < matched <= len(lines) else "?"),
+            "replay": {"seed": core.seed(), "events": lines[lo:matched + 1]}})
+    v.cov["rule"] = ("TLC: all interleavings of the Ring specification (Size 4 units, all operation kinds). Replay: transition-cover "
+                     "schedules generated by TLC (one witness per transition of the replayable regime), forced on the real buffer through "
+                     "the verif yield points, with consumed bytes checked against a position-dependent stream, cursors after every step; "
+                     "free-running pairs validated against RingStreamTrace. distinct_nontrivial = schedules replayed")
+    v.cov["exhaustive"] = thorough
+    v.assumptions += ["one producer and one consumer goroutine (the buffer's contract)",
+                      "one model unit = 4096 bytes in gated replay; byte granularity only in the free-running part",
+                      "quick tier replays all maximal schedules of 5 configurations, thorough of 10 (larger bounds)"]
+    return v.finish()
+
+
+@check("C15")
+def c15(tier):
+    v, thorough = ring_check("C15", tier)
+    v.cov["rule"] = ("TLC: deadlock freedom, LocksFreeAtRest, termination and Close ~> returned under weak fairness on the Ring "
+                     "specification; each named deviation (stale cursor, leaked mutex, Close under the wrong mutex) is refuted by TLC "
+                     "(vacuity guard). Replay: transition-cover schedules forced on the real buffer; after every step: the yield point "
+                     "reached or the call result, parking observed through the mutex probe, both mutex probes compared, a step the "
+                     "specification enables must complete (3-fold reproduction before it counts). distinct_nontrivial = schedules replayed")
+    v.cov["exhaustive"] = thorough
+    v.assumptions += ["a woken waiter re-acquires its mutex before anyone else moves (cannot be gated inside sync.Cond.Wait); the "
+                      "unrestricted interleavings are checked by TLC on the specification only",
+                      "a blocked step is accepted as a violation only when it reproduces on two further replays (4 s deadline each)"]
+    return v.finish()
+
+
 # ------------------------------------------------------------------------------------------ misc
 
 def setup():
